@@ -228,7 +228,7 @@ def run_setops(repo, task):
     rep = Report('C06-setops', task,
                  rule='every ordered arrangement of every sub-set (<= 3 labels quick, <= 4 thorough) of a 4-label universe for both operands, '
                       'x {union, intersection, difference} x right operand given as index (all pools) or as ndarray / list (same-pool pairs); '
-                      'variadic union/intersection with 2 further operands; non-trivial = at least one operand non-empty',
+                      'variadic union/intersection with 2 further operands; identical labels held with different array dtypes (int32/int64, <U1/<U3, <U2/object) on either side; non-trivial = at least one operand non-empty',
                  bound='<= 4 labels per operand; label kinds int64, float64, <U2, mixed object, object str, tuple, bool, datetime64[D|M|s], '
                        'IndexHierarchy depth 2 (str/int, int/int, str/date) and 3, IndexGO / IndexHierarchyGO left operands')
     tier = task.get('tier', 'quick')
